@@ -22,7 +22,9 @@ Inductive ccase :=
 | CWhenK (arr : list (tag * bool)) (outDs : list (list atok)) (outE : list atok)
 (* LoopCombinatorStep with k input ports fed (port, token) in this order: per output port the tokens put on it, and
    whether run() returned *)
-| CCombK (k : nat) (arr : list (nat * atok)) (outs : list (list atok)) (fin : bool).
+| CCombK (k : nat) (arr : list (nat * atok)) (outs : list (list atok)) (fin : bool)
+(* the same with termination tokens that clear the checklist (FAILED, CANCELLED, RECOVERED): [XClear] *)
+| CCombKX (k : nat) (arr : list (nat * xtok)) (outs : list (list atok)) (fin : bool).
 
 Definition tag_eqb (a b : tag) : bool := list_eqb N.eqb a b.
 Definition atok_eqb (a b : atok) : bool :=
@@ -42,6 +44,11 @@ Definition check_case (c : ccase) : bool :=
       list_eqb atok_eqb (qB s) out && Bool.eqb (cterm s) fin
   | CCombK k arr outs fin =>
       let s := ck_run k arr in
+      list_eqb (list_eqb atok_eqb)
+               (map (fun j => map snd (filter (fun x => Nat.eqb (fst x) j) (kout s))) (seq 0 k)) outs
+      && Bool.eqb (kdone s) fin
+  | CCombKX k arr outs fin =>
+      let s := ckx_run k arr in
       list_eqb (list_eqb atok_eqb)
                (map (fun j => map snd (filter (fun x => Nat.eqb (fst x) j) (kout s))) (seq 0 k)) outs
       && Bool.eqb (kdone s) fin
